@@ -9,4 +9,5 @@ CONSTANTS
   FixWorkerErr = TRUE
   AllowStop = TRUE
   AllowFault = TRUE
+  AliveCheck = TRUE
 CHECK_DEADLOCK FALSE
